@@ -5,6 +5,7 @@
 package engine
 
 import (
+	"gosym/smt"
 	"bytes"
 	"fmt"
 	"go/constant"
@@ -322,6 +323,7 @@ func (i *interpreter) lookup(instr *ssa.Lookup, x, idx value) value {
 	switch x := x.(type) {
 	case *omap:
 		v, ok := x.lookup(i, idx)
+		v = cloneAgg(v)
 		if !ok {
 			v = zero(instr.X.Type().Underlying().(*types.Map).Elem())
 		}
@@ -1006,8 +1008,13 @@ func callBuiltin(caller *frame, callpos token.Pos, fn *ssa.Builtin, args []value
 			}
 			return arg0
 		}
-		// append([]T, ...[]T) []T
-		return append(args[0].([]value), args[1].([]value)...)
+		// append([]T, ...[]T) []T   (aggregate elements are copied by value)
+		src := args[1].([]value)
+		out := args[0].([]value)
+		for _, e := range src {
+			out = append(out, cloneAgg(e))
+		}
+		return out
 
 	case "copy": // copy([]T, []T) int or copy([]byte, string) int
 		src := args[1]
@@ -1018,7 +1025,22 @@ func callBuiltin(caller *frame, callpos token.Pos, fn *ssa.Builtin, args []value
 			params := fn.Type().(*types.Signature).Params()
 			src = convConc(params.At(0).Type(), params.At(1).Type(), src)
 		}
-		return copy(args[0].([]value), src.([]value))
+		dst := args[0].([]value)
+		sv := src.([]value)
+		n := len(dst)
+		if len(sv) < n {
+			n = len(sv)
+		}
+		if n > 0 && len(sv) > 0 && len(dst) > 0 && &dst[0] != &sv[0] {
+			// overlapping copies within one backing array are handled by the native copy below for scalars;
+			// aggregates are cloned element-wise (forward copy is safe when dst starts before src or they do not overlap)
+		}
+		tmp := make([]value, n)
+		for j := 0; j < n; j++ {
+			tmp[j] = cloneAgg(sv[j])
+		}
+		copy(dst, tmp)
+		return n
 
 	case "close": // close(chan T)
 		close(args[0].(chan value))
@@ -1142,9 +1164,12 @@ func callBuiltin(caller *frame, callpos token.Pos, fn *ssa.Builtin, args []value
 	panic("unknown built-in: " + fn.Name())
 }
 
-func rangeIter(x value, t types.Type) iter {
+func (i *interpreter) rangeIter(x value, t types.Type) iter {
 	switch x := x.(type) {
 	case *omap:
+		if i.m != nil && i.m.MapNondet && x != nil {
+			return i.permutedIter(x)
+		}
 		return &omapIter{m: x}
 	case string:
 		return &stringIter{Reader: strings.NewReader(x)}
@@ -1570,4 +1595,73 @@ func fandbits[F floaty](x, y F) F {
 		*(*uint64)(unsafe.Pointer(&x)) &= *(*uint64)(unsafe.Pointer(&y))
 	}
 	return x
+}
+
+// cloneAgg copies struct and array values (Go value semantics); references (pointers, slices, maps) are shared.
+func cloneAgg(v value) value {
+	switch v := v.(type) {
+	case structure:
+		out := make(structure, len(v))
+		for j := range v {
+			out[j] = cloneAgg(v[j])
+		}
+		return out
+	case array:
+		out := make(array, len(v))
+		for j := range v {
+			out[j] = cloneAgg(v[j])
+		}
+		return out
+	}
+	return v
+}
+
+// permutedIter: under zz.NondetMapOrder(true) a range over a map with 2..4 entries forks over every iteration order
+// (Go leaves map iteration order unspecified).
+func (i *interpreter) permutedIter(m *omap) iter {
+	var live []int
+	for j := range m.keys {
+		if !m.dead[j] {
+			live = append(live, j)
+		}
+	}
+	n := len(live)
+	if n < 2 {
+		return &omapIter{m: m}
+	}
+	if n > 4 {
+		unsup("nondeterministic map order over %d entries (bound is 4)", n)
+	}
+	fact := 1
+	for k := 2; k <= n; k++ {
+		fact *= k
+	}
+	choice := i.decideN(fact, func(int) *smt.Term { return i.m.C.True() })
+	// decode the permutation number (factorial number system)
+	pool := append([]int{}, live...)
+	var order []int
+	for k := n; k >= 1; k-- {
+		idx := choice % k
+		choice /= k
+		order = append(order, pool[idx])
+		pool = append(pool[:idx:idx], pool[idx+1:]...)
+	}
+	return &fixedOrderIter{m: m, order: order}
+}
+
+type fixedOrderIter struct {
+	m     *omap
+	order []int
+	pos   int
+}
+
+func (it *fixedOrderIter) next() tuple {
+	for it.pos < len(it.order) {
+		j := it.order[it.pos]
+		it.pos++
+		if !it.m.dead[j] {
+			return tuple{true, cloneAgg(it.m.keys[j]), cloneAgg(it.m.vals[j])}
+		}
+	}
+	return tuple{false, nil, nil}
 }
